@@ -158,6 +158,7 @@ type Run struct {
 	onces   map[lockKey]*onceState
 	pools   map[lockKey][]Value
 	killed  bool
+	knownFaultKey string
 	preemptions int
 	exclude     *G
 	stubs    map[string]Value
@@ -649,11 +650,19 @@ func (r *Run) newInput(w uint8, name string) Int {
 }
 
 func (r *Run) unwindFailure(fr *frame) {
+	if r.knownFaultKey != "" {
+		r.knownHits[r.knownFaultKey]++
+		panic(abortPath{"non-termination attributed to known finding " + r.knownFaultKey})
+	}
 	r.recordCex("unwind", "unwind", fmt.Sprintf("loop bound %d exceeded in %s block %d", r.unwind, fr.fn, fr.block.Index), r.model, fr)
 	panic(abortPath{"unwind bound exceeded"})
 }
 
 func (r *Run) stepBudgetExceeded(fr *frame) {
+	if r.knownFaultKey != "" {
+		r.knownHits[r.knownFaultKey]++
+		panic(abortPath{"non-termination attributed to known finding " + r.knownFaultKey})
+	}
 	r.recordCex("unwind", "steps", fmt.Sprintf("step budget %d exceeded (non-termination?) in %s", r.maxSteps, fr.fn), r.model, fr)
 	panic(abortPath{"step budget exceeded"})
 }
@@ -868,6 +877,11 @@ func (j *Job) runOne(w *Worker, it *WorkItem) (r *Run) {
 			j.mu.Unlock()
 			r.dropped = true
 		case fatalFault:
+			if r.knownFaultKey != "" {
+				r.knownHits[r.knownFaultKey]++
+				r.dropped = true
+				break
+			}
 			r.recordCex("fault", "no-fault", p.msg, r.model, nil)
 			if r.cur != nil && r.cur.top != nil {
 				r.cexs[len(r.cexs)-1].Stack = r.cur.top.stack()
@@ -879,6 +893,17 @@ func (j *Job) runOne(w *Worker, it *WorkItem) (r *Run) {
 			panic(p)
 		}
 	}()
+	if os.Getenv("GOSYM_WATCHDOG") != "" {
+		doneCh := make(chan struct{})
+		defer close(doneCh)
+		go func() {
+			select {
+			case <-doneCh:
+			case <-time.After(45 * time.Second):
+				fmt.Fprintf(os.Stderr, "WATCHDOG: slow path: chooses=%v decs=%d steps=%d concretizations pending; last trace: %v\n", r.chooses, len(r.decs), r.steps, lastN(r.trace, 5))
+			}
+		}()
+	}
 	// package initialisers
 	for _, pkg := range j.P.initOrder() {
 		r.callSSA(nil, pkg.Func("init"), nil, nil, 0)
@@ -947,3 +972,10 @@ func (P *Program) initOrder() []*ssa.Package {
 }
 
 var _ = types.Typ
+
+func lastN(s []string, n int) []string {
+	if len(s) > n {
+		return s[len(s)-n:]
+	}
+	return s
+}
